@@ -1,5 +1,6 @@
 import Proofs.C15Paging
 import Proofs.C15Hist
+import Proofs.C15Retry
 /-!
 # C15 — paged iteration yields every row exactly once, in order, and then stops
 
@@ -388,5 +389,82 @@ example :
     w.its.map (·.out) = [[1, 2]] ∧ w.its.map (·.cur.err) = [some .ctx] ∧
     w.its.map (·.reqs) = [[.exec 1 false false none none]] := by
   decide
+
+/-! ## Retry tier: faults at page fetches × the executor's retry decisions (Model/PagingRetry.lean)
+
+Full property: ∀ script (every fault at every fetch, every decision about every failed attempt, every
+policy, 1..n hosts, every consumer incl. the manual loop): the rows delivered are a PREFIX of the full
+result and EITHER all of it was delivered OR the consumer is told an error. On the unchanged code this
+does NOT hold when a fetch is answered with a RESULT that is not rows (conn.go `case *resultVoidFrame`:
+an Iter without rows, error and next page — the iteration ends normally): hypothesis `NoVoid`,
+counterexample `C15_cex_wrong_kind` (proposed finding KF-C15-3); and, for the manual loop only, with a
+present-but-empty paging state (KF-C15-1, the application's loop stops at an empty `PageState()`).
+What `Ignore` means for a page fetch: policies.go documents it as "ignore error and return result"; a
+failed page fetch has no result, and queryExecutor.do hands the Iter back WITH its error for Ignore exactly
+as for Rethrow (`C15_ignore_is_rethrow`), so the unchanged code never ends silently under Ignore. -/
+open PagingRetry in
+/-- **No silent truncation, for all fault / decision sequences.** Whatever the script (failures of any
+    kind before any page, UNPREPARED anywhere), whatever the policy does (any function of Attempts(), the
+    failure and the scripted decision; or no policy), any number of hosts, automatic or manual paging: the
+    rows the consumer receives are a prefix of the full result, and if it is told no error they ARE the
+    full result. -/
+theorem C15_no_silent_truncation (pol : Option Policy) (nodes : Nat) (q0 : Qry) (manualC : Bool)
+    (script : List RReply) (cached : Bool) (att hosts : Nat) (q : Qry)
+    (hv : NoVoid script) (he : manualC = false ∨ NoEmptyStateR script) :
+    let o := runR pol nodes q0 manualC script cached att hosts q
+    o.rows <+: full script ∧ (o.err = none → o.rows = full script) :=
+  C15Retry.rows_prefix_full pol nodes q0 manualC script cached att hosts q hv he
+
+open PagingRetry in
+/-- **A retried fetch asks for the same page.** Every QUERY/EXECUTE the cluster receives carries the paging
+    state of the last page served before it (none before the first page): a retry — same host or next host,
+    with or without a changed consistency — repeats the state of the failed attempt, the fetch after a page
+    carries that page's state (script without present-but-empty states, KF-C15-1). -/
+theorem C15_retry_same_state (pol : Option Policy) (nodes : Nat) (q0 : Qry) (manualC : Bool)
+    (script : List RReply) (cached : Bool) (att hosts : Nat) (q : Qry) (he : NoEmptyStateR script) :
+    (runR pol nodes q0 manualC script cached att hosts q).reqs.filterMap reqState <+: stateSeq script (firstState q) :=
+  C15Retry.req_states pol nodes q0 manualC script cached att hosts q he
+
+open PagingRetry in
+/-- **Without a retry policy the retry model IS the base model** (so every theorem about `run` above speaks
+    about it), and the policy is never asked. -/
+theorem C15_retry_none_is_base (pp : Nat → Nat) (nodes : Nat) (q0 : Qry) (script : List Reply) (cached : Bool)
+    (att hosts : Nat) (q : Qry) (hq : q.disableAutoPage = false) :
+    let o := runR none nodes q0 false (script.map emb) cached att hosts q
+    (⟨o.rows, o.reqs, o.err⟩ : Out) = run pp script cached q ∧ o.atts = [] :=
+  C15Retry.none_is_base pp nodes q0 script cached att hosts q hq
+
+open PagingRetry in
+/-- **Ignore = Rethrow for a fetch.** Replacing every scripted Ignore by Rethrow changes nothing the
+    application or the cluster can observe (any budget). -/
+theorem C15_ignore_is_rethrow (budget : Option Nat) (nodes : Nat) (q0 : Qry) (manualC : Bool)
+    (script : List RReply) (cached : Bool) (att hosts : Nat) (q : Qry) :
+    runR (some (scripted budget)) nodes q0 manualC (script.map C15Retry.ignoreToRethrow) cached att hosts q =
+    runR (some (scripted budget)) nodes q0 manualC script cached att hosts q :=
+  C15Retry.ignore_same budget nodes q0 manualC script cached att hosts q
+
+open PagingRetry in
+/-- **Counterexample (unchanged code), wrong kind**: page 1 has rows 1,2 and has_more_pages; the fetch of
+    page 2 is answered with a RESULT of kind void; the consumer gets 1,2 and NO error although the result
+    is 1,2,3. -/
+theorem C15_cex_wrong_kind :
+    let q : Qry := { ident := 1, prepared := false, skipMeta := false, pageSize := 0, pageState := [], disableAutoPage := false }
+    let script : List RReply := [.page [1, 2] (some [1]), .void, .page [3] none]
+    let o := runR none 1 q false script false 0 0 q
+    o.rows = [1, 2] ∧ o.err = none ∧ full script = [1, 2, 3] ∧ ¬ (o.err = none → o.rows = full script) := by
+  decide
+
+/-- non-vacuity: 2 hosts; the fetch of page 2 fails with a read timeout (Retry), an overloaded error
+    (RetryNextHost), then succeeds; the fetch of page 3 fails with a write timeout and the policy says
+    Ignore: rows 1,2,3 and THAT error; the policy saw Attempts() = 1, 2 and then 1 again (fresh metrics per page) -/
+example :
+    let q : Qry := { ident := 1, prepared := false, skipMeta := false, pageSize := 0, pageState := [], disableAutoPage := false }
+    let script : List PagingRetry.RReply := [.page [1, 2] (some [1]), .fail (.srv 0x1200) .retry, .fail (.srv 0x1001) .nextHost,
+      .page [3] (some [2]), .fail (.srv 0x1100) .ignore, .page [4] none]
+    let o := PagingRetry.runR (some (PagingRetry.scripted none)) 2 q false script false 0 1 q
+    o.rows = [1, 2, 3] ∧ o.err = some (.srv 0x1100) ∧ o.atts = [1, 2, 1] ∧ PagingRetry.full script = [1, 2, 3, 4] ∧
+    o.reqs.filterMap PagingRetry.reqState = [none, some [1], some [1], some [1], some [2]] := by
+  decide
+
 
 end C15
